@@ -35,6 +35,9 @@ type Options struct {
 	// AllowTick says whether TICK may be offered as a *choice* while threads are enabled
 	// (a forced tick, when nothing is enabled, is always taken). nil = always.
 	AllowTick func(x *Exec, enabled []*Thread) bool
+	// Drain keeps scheduling background threads after the harness threads finished, until nothing is
+	// enabled and no timer fires within the horizon; goroutines still blocked then are reported as a leak.
+	Drain bool
 	// Independent, if set, declares that the pending operations of two gated threads commute and do not
 	// affect each other's result; used only for sleep-set style pruning of preemptions (nil = none).
 	SkipPreempt func(x *Exec, running *Thread, other *Thread) bool
@@ -55,6 +58,8 @@ type Thread struct {
 	dead    bool
 	Obs     uint64 // hash of everything this thread observed so far
 	Steps   int
+	chooseN int // > 1: the pending gate also asks for a data choice in 0..chooseN-1
+	chosen  int
 }
 
 func (t *Thread) Pending() string { return t.pending }
@@ -94,6 +99,7 @@ type Exec struct {
 	Choices []int
 	Trace   []string
 	cost    int
+	delays  int
 
 	Viol     *Violation
 	Verdict  string // "complete", "violation", "blocked", "stepcap", "diverged"
@@ -105,6 +111,8 @@ type Exec struct {
 
 	// OnStep is called by the controller after every step has settled (all threads gated/blocked).
 	OnStep func(x *Exec)
+	// AtEnd is called by the controller when the execution is over (before tear-down), for end-state oracles.
+	AtEnd func(x *Exec)
 	// User data of the harness.
 	User any
 }
@@ -117,6 +125,9 @@ func (x *Exec) Elapsed() time.Duration { return time.Since(x.start) }
 
 // Threads returns the registered threads (ids assigned).
 func (x *Exec) Threads() []*Thread { return x.threads }
+
+// Delays is the number of delaying ticks taken so far (ticks chosen while some thread was enabled).
+func (x *Exec) Delays() int { return x.delays }
 
 // Cost is the number of deviations spent so far.
 func (x *Exec) Cost() int { return x.cost }
@@ -187,7 +198,13 @@ func (x *Exec) Current() *Thread {
 
 // Gate blocks the calling goroutine until the controller releases it. A goroutine that is not yet
 // known is registered as a background thread of `client`.
-func (x *Exec) Gate(client int, label string) {
+func (x *Exec) Gate(client int, label string) { x.gate(client, label, 0) }
+
+// GateChoose is a scheduling point that also asks the explorer for a value in 0..n-1 (a data choice:
+// every alternative is free of cost). Used for "which ready select case wins".
+func (x *Exec) GateChoose(client int, label string, n int) int { return x.gate(client, label, n) }
+
+func (x *Exec) gate(client int, label string, n int) int {
 	g := goid()
 	x.mu.Lock()
 	if x.killed {
@@ -206,6 +223,7 @@ func (x *Exec) Gate(client int, label string) {
 	}
 	th.gated = true
 	th.pending = label
+	th.chooseN = n
 	if th.First == "" {
 		th.First = label
 	}
@@ -215,6 +233,7 @@ func (x *Exec) Gate(client int, label string) {
 	if !ok {
 		runtime.Goexit()
 	}
+	return th.chosen
 }
 
 // Observe folds a result into the calling thread's observation hash.
@@ -339,7 +358,7 @@ func (x *Exec) loop() {
 			x.Verdict = "violation"
 			return
 		}
-		if x.harnessDone() {
+		if x.harnessDone() && !x.opts.Drain {
 			x.Verdict = "complete"
 			return
 		}
@@ -351,6 +370,15 @@ func (x *Exec) loop() {
 		if len(en) == 0 {
 			// forced tick: not a decision
 			x.Trace = append(x.Trace, fmt.Sprintf("[%v] TICK (forced)", time.Since(x.start)))
+			if x.harnessDone() {
+				// drain mode: run what is left to quiescence
+				if !x.tick() {
+					x.Verdict = "complete"
+					return
+				}
+				x.last = nil
+				continue
+			}
 			if !x.tick() {
 				x.Verdict = "blocked"
 				var stuck []string
@@ -399,6 +427,7 @@ func (x *Exec) loop() {
 		isTick := tickOffered && choice == n-1
 		if isTick {
 			x.cost++ // a tick while something is enabled delays it
+			x.delays++
 			x.Trace = append(x.Trace, fmt.Sprintf("[%v] TICK (delaying %d enabled)", time.Since(x.start), len(en)))
 			x.tick()
 			x.last = nil
@@ -407,6 +436,24 @@ func (x *Exec) loop() {
 		th := en[choice]
 		if p.LastEnabled && choice != 0 {
 			x.cost++
+		}
+		if th.chooseN > 1 {
+			// a data choice made at the moment the thread is scheduled
+			dp := Point{N: th.chooseN, Sig: pointSig([]*Thread{th}, false) ^ uint64(th.chooseN), CostBefore: x.cost}
+			j := len(x.Points)
+			val := 0
+			if j < len(x.prefix) {
+				val = x.prefix[j]
+				if (j < len(x.expect) && x.expect[j] != dp.Sig) || val >= dp.N {
+					x.Verdict = "diverged"
+					x.Diverged = fmt.Sprintf("point %d: data choice differs from the recorded execution", j)
+					return
+				}
+			}
+			x.Points = append(x.Points, dp)
+			x.Choices = append(x.Choices, val)
+			th.chosen = val
+			th.pending += fmt.Sprintf(" [choice %d/%d]", val, th.chooseN)
 		}
 		x.Trace = append(x.Trace, fmt.Sprintf("[%v] t%d/%s: %s", time.Since(x.start), th.ID, th.Name, th.pending))
 		x.mu.Lock()
@@ -467,6 +514,12 @@ func RunOnce(t *testing.T, opts *Options, body func(x *Exec), prefix []int, expe
 			x.ctx, x.cancel = context.WithCancel(context.Background())
 			body(x)
 			x.loop()
+			if x.AtEnd != nil && x.Verdict == "complete" {
+				x.AtEnd(x)
+				if x.Viol != nil {
+					x.Verdict = "violation"
+				}
+			}
 			x.teardown()
 		})
 	}()
